@@ -114,8 +114,20 @@ func runC07(seed int64, n int, dir string, tier string) *Report {
 				Hashes:         map[int32]string{int32(sbom.HashAlgorithm_SHA1): "aa", int32(sbom.HashAlgorithm_SHA256): "bb", int32(sbom.HashAlgorithm_MD5): "cc"},
 				PrimaryPurpose: []sbom.Purpose{sbom.Purpose_LIBRARY, sbom.Purpose_APPLICATION, sbom.Purpose_FRAMEWORK},
 				Licenses:       []string{"MIT", "Apache-2.0"}}}
+		d.NodeList.Nodes = append(d.NodeList.Nodes, &sbom.Node{Id: "m", Name: "m", Type: sbom.Node_PACKAGE}, &sbom.Node{Id: "k", Name: "k", Type: sbom.Node_PACKAGE})
 		d.NodeList.RootElements = []string{"root"}
-		d.NodeList.Edges = []*sbom.Edge{{Type: sbom.Edge_contains, From: "root", To: []string{"n"}}}
+		// a dependency edge that repeats a target before naming others (what RelateNodeAtID leaves behind)
+		d.NodeList.Edges = []*sbom.Edge{{Type: sbom.Edge_contains, From: "root", To: []string{"n", "m", "k"}},
+			{Type: sbom.Edge_dependsOn, From: "n", To: []string{"m", "m", "k", "m", "root"}}}
+		before := map[formats.Format]serOutcome{}
+		for _, f := range allWriterFormats {
+			before[f] = serializeOnce(d, f)
+		}
+		for _, f := range allWriterFormats {
+			if now := serializeOnce(d, f); now.kind != before[f].kind || now.out != before[f].out {
+				rep.Fail(Failure{What: "serializing the same document again gave a different result", Detail: "after the document had been serialized in the other formats (a dependency edge with a repeated target)", Input: map[string]any{"format": string(f), "document": docJSON(d)}})
+			}
+		}
 		for _, f := range allWriterFormats {
 			first := serializeOnce(d, f)
 			rep.OracleEvals++
